@@ -411,13 +411,14 @@ class Runner:
             q.ub_notes = sorted(set(list(q.ub_notes) + ["%s: %s" % (r["property"], r.get("description", "")) for r in ub]))
             real_fail = [r for r in real_fail if r not in ub]
             other = [r for r in results if r["status"] not in ("SUCCESS", "FAILURE")]
+            if real_fail:
+                # (a failed memory-safety check makes CBMC report later properties as UNKNOWN: the failure is what counts)
+                q.failed_props = [(r["property"], r.get("description", "")) for r in real_fail]
+                self.confirm(q, binp, wd, real_fail)
+                return q
             if other:
                 # cbmc gives ERROR/UNKNOWN statuses when it ran into the resource limit while deciding a property
                 q.status, q.detail = "inconclusive", "cbmc status %s for %s (resource limit)" % (other[0]["status"], other[0]["property"])
-                return q
-            if real_fail:
-                q.failed_props = [(r["property"], r.get("description", "")) for r in real_fail]
-                self.confirm(q, binp, wd, real_fail)
                 return q
             if not wit:
                 q.status, q.detail = "error", "harness has no WITNESS assertion"
@@ -648,6 +649,23 @@ COMMON_ASSUMPTIONS = [
     "sizes/allocations/sign patterns/alias patterns are concrete per query (enumerated by the driver); limb contents are solver variables",
     "mpz/export.c and mpz/import.c: the alignment idiom '(char *) data - (char *) NULL' is rewritten to '(unsigned long) data' in the snapshot copy (pointer difference with NULL is UB that CBMC refuses to look past)",
 ]
+
+
+def reuse(ctx, modname, regex, extra_defs=None, prefix="", exclude=None, transform=None):
+    """queries of another property module (its harness families are shared), filtered, renamed and re-parameterised"""
+    import importlib
+    m = importlib.import_module(modname)
+    out = []
+    for q in m.queries(ctx):
+        if not re.search(regex, q.name) or (exclude and re.search(exclude, q.name)):
+            continue
+        q.name = prefix + q.name
+        q.defs.update(extra_defs or {})
+        q.shape = dict(q.defs)
+        if transform:
+            transform(q)
+        out.append(q)
+    return out
 
 
 def finish(ctx, queries, level="model_checking", extra_cov=None, assumptions=None, note=None):
